@@ -106,7 +106,9 @@ class Session:
             if isinstance(e, KeyboardInterrupt):
                 raise
             ev.exc = e
-        if ev.exc is None and self.kind == "tree":
+        if ev.exc is None and op == "map":
+            ev.phenotypes, ev.outputs = list(ev.outputs), []
+        elif ev.exc is None and self.kind == "tree":
             ev.phenotypes = list(ev.outputs)
         self._emit(ev)
         return ev
@@ -119,11 +121,7 @@ class Session:
 
     def map(self, i):
         g = self.pool[i % len(self.pool)]
-        ev = self._call("map", [g], lambda: self.rep.genotype_to_phenotype(g))
-        if ev.exc is None:
-            ev.phenotypes = list(ev.outputs)
-            ev.outputs = []
-        return ev
+        return self._call("map", [g], lambda: self.rep.genotype_to_phenotype(g))
 
     def mutate(self, i):
         g = self.pool[i % len(self.pool)]
